@@ -85,6 +85,20 @@ ClearParity(k) == [i \in 1..Len(k) |-> k[i] & 254]
 Part(k, i) == [j \in 1..8 |-> k[8 * (i - 1) + j]]
 ZeroTweak == [i \in 1..16 |-> 0]
 
+\* lexicographic order on equal-length byte tuples
+RECURSIVE LexLess(_, _, _)
+LexLess(a, b, i) == IF i > Len(a) THEN FALSE
+                    ELSE IF a[i] < b[i] THEN TRUE
+                    ELSE IF a[i] > b[i] THEN FALSE
+                    ELSE LexLess(a, b, i + 1)
+\* DES complementation (FIPS 46-3 / C05): DES(~k, ~p) = ~DES(k, p).  A DES-type key and its complement share one
+\* class; `Flipped` says whether blocks have to be complemented to enter the class's permutation.
+ComplKey(c) == [i \in 1..Len(c) |-> 254 - c[i]]            \* complement of a parity-cleared key
+DesRep(c) == IF LexLess(ComplKey(c), c, 1) THEN ComplKey(c) ELSE c
+DesFamily(t) == t \in {"Des", "TdesEde2", "TdesEde3", "TdesEee2", "TdesEee3"}
+Flipped(t, k) == DesFamily(t) /\ LexLess(ComplKey(ClearParity(k)), ClearParity(k), 1)
+FlipBlock(b) == [i \in 1..Len(b) |-> 255 - b[i]]
+
 \* ------------------------------------------------------- canonical class
 \* EDE composition E_k3(D_k2(E_k1)): adjacent equal parts cancel
 EdeClass(a, b, c) ==
@@ -96,11 +110,12 @@ Class(t, k, x) ==
     CASE t \in AesT -> <<"Aes", k>>
       [] t \in KuzT -> <<"Kuznyechik", k>>
       [] t \in GostT -> <<t, k>>
-      [] t = "Des" -> <<"Des", ClearParity(k)>>
-      [] t = "TdesEde3" -> LET c == ClearParity(k) IN EdeClass(Part(c, 1), Part(c, 2), Part(c, 3))
-      [] t = "TdesEde2" -> LET c == ClearParity(k) IN EdeClass(Part(c, 1), Part(c, 2), Part(c, 1))
-      [] t = "TdesEee3" -> LET c == ClearParity(k) IN <<"Eee", Part(c, 1), Part(c, 2), Part(c, 3)>>
-      [] t = "TdesEee2" -> LET c == ClearParity(k) IN <<"Eee", Part(c, 1), Part(c, 2), Part(c, 1)>>
+      \* DES types: parity cleared, then the representative of {key, complemented key} (all parts complement together)
+      [] t = "Des" -> <<"Des", DesRep(ClearParity(k))>>
+      [] t = "TdesEde3" -> LET c == DesRep(ClearParity(k)) IN EdeClass(Part(c, 1), Part(c, 2), Part(c, 3))
+      [] t = "TdesEde2" -> LET c == DesRep(ClearParity(k)) IN EdeClass(Part(c, 1), Part(c, 2), Part(c, 1))
+      [] t = "TdesEee3" -> LET c == DesRep(ClearParity(k)) IN <<"Eee", Part(c, 1), Part(c, 2), Part(c, 3)>>
+      [] t = "TdesEee2" -> LET c == DesRep(ClearParity(k)) IN <<"Eee", Part(c, 1), Part(c, 2), Part(c, 1)>>
       [] t = "Cast5" -> IF Len(k) > 10 THEN <<"Cast5", PadTo(k, 16, 0)>> ELSE <<"Cast5-12", k>>
       [] t = "Cast6" -> <<"Cast6", PadTo(k, 32, 0)>>
       [] t = "Serpent" -> <<"Serpent", IF Len(k) < 32 THEN PadTo(k, 32, 1) ELSE k>>
